@@ -342,15 +342,38 @@ func appliedAsGiven(c *kernel.Chain, msg sdk.Msg, pre paramSnap) string {
 			}
 		}
 	case *disttypes.MsgUpdateSubDistributorDestinationShareParam:
+		var before disttypes.Params
+		cdc.MustUnmarshal(pre.dist, &before)
+		prev := map[string]string{}
+		for i := range before.SubDistributors {
+			prev[before.SubDistributors[i].Name] = subKey(&before.SubDistributors[i])
+		}
+		named := false
 		for _, s := range c.DistParams().SubDistributors {
+			s := s
 			if s.Name != t.SubDistributorName {
+				// the message names one sub-distributor: no other may change
+				if was, ok := prev[s.Name]; ok && was != subKey(&s) {
+					return fmt.Sprintf("it names sub-distributor %s, and sub-distributor %s was changed", t.SubDistributorName, s.Name)
+				}
 				continue
 			}
+			named = true
+			found := false
 			for _, sh := range s.Destinations.Shares {
-				if sh != nil && sh.Name == t.DestinationName && !sh.Share.Equal(t.Share) {
-					return fmt.Sprintf("the stored share %s/%s is %s, the message says %s", s.Name, sh.Name, sh.Share, t.Share)
+				if sh != nil && sh.Name == t.DestinationName {
+					found = true
+					if !sh.Share.Equal(t.Share) {
+						return fmt.Sprintf("the stored share %s/%s is %s, the message says %s", s.Name, sh.Name, sh.Share, t.Share)
+					}
 				}
 			}
+			if !found {
+				return fmt.Sprintf("sub-distributor %s has no destination %s", s.Name, t.DestinationName)
+			}
+		}
+		if !named {
+			return fmt.Sprintf("no sub-distributor %s is stored", t.SubDistributorName)
 		}
 	case *vtypes.MsgUpdateDenomParam:
 		if d := c.VestingParams().Denom; d != t.Denom {
